@@ -12,6 +12,8 @@ use dfs::{explore, replay, ExploreResult};
 
 #[allow(dead_code, unexpected_cfgs, missing_docs, clippy::all)]
 mod autoreload {
+    // stand-in for the `notify` crate: the watch-fs items of the real source compile against it
+    pub mod notify;
     include!(concat!(env!("OUT_DIR"), "/autoreload_swapped.rs"));
 }
 
@@ -34,11 +36,40 @@ struct Cfg {
     acquires_each: usize,
     /// an environment already exists when the threads start (the main thread acquired once)
     prewarm: bool,
+    /// threads that play notify's event loop: each changes the watched path once and delivers the
+    /// event to the handler closure the real source registered
+    fs_events: usize,
+    watch: Watch,
+    /// which event kind the fs threads deliver (index into EVENT_KINDS)
+    kind: usize,
 }
+
+#[derive(Clone, Copy, Debug, PartialEq, Eq)]
+enum Watch {
+    /// the creator does not watch anything
+    Off,
+    /// the creator calls watch_path; the watcher is dropped and re-created at every rebuild
+    Transient,
+    /// persistent_watch(true): one watcher for the reloader's lifetime
+    Persistent,
+}
+
+const EVENT_KINDS: [(&str, fn() -> autoreload::notify::event::EventKind); 5] = [
+    ("modify-data", || autoreload::notify::event::EventKind::Modify(autoreload::notify::event::ModifyKind::Data(()))),
+    ("create", || autoreload::notify::event::EventKind::Create(())),
+    ("remove", || autoreload::notify::event::EventKind::Remove(())),
+    ("modify-name", || autoreload::notify::event::EventKind::Modify(autoreload::notify::event::ModifyKind::Name(()))),
+    ("modify-any", || autoreload::notify::event::EventKind::Modify(autoreload::notify::event::ModifyKind::Any)),
+];
 
 impl Cfg {
     fn name(&self) -> String {
-        format!("R{}A{}x{} {} {:?}{}", self.requesters, self.acquirers, self.acquires_each, if self.fast { "fast" } else { "rebuild" }, self.variant, if self.prewarm { " prewarmed" } else { "" })
+        let base = format!("R{}A{}x{} {} {:?}{}", self.requesters, self.acquirers, self.acquires_each, if self.fast { "fast" } else { "rebuild" }, self.variant, if self.prewarm { " prewarmed" } else { "" });
+        if self.watch == Watch::Off {
+            base
+        } else {
+            format!("{} W{} {:?} {}", base, self.fs_events, self.watch, EVENT_KINDS[self.kind].0)
+        }
     }
 }
 
@@ -52,6 +83,8 @@ fn c20_body(cfg: Cfg, stats: StdArc<StdMutex<Stats>>) -> impl Fn() + Send + Sync
     use autoreload::AutoReloader;
     use minijinja::Environment;
     move || {
+        autoreload::notify::reset_registry();
+        let events_delivered = StdArc::new(AtomicUsize::new(0));
         // harness-owned shared state (plain std atomics: not scheduling points, tasks run one at a time)
         let version = StdArc::new(AtomicUsize::new(0)); // bumped by every requester before its request
         let returned = StdArc::new(AtomicUsize::new(0)); // highest k whose request_reload() has returned
@@ -83,6 +116,14 @@ fn c20_body(cfg: Cfg, stats: StdArc<StdMutex<Stats>>) -> impl Fn() + Send + Sync
                     }
                 });
             }
+            match cfg.watch {
+                Watch::Off => {}
+                Watch::Transient => notifier.watch_path("tpl", true),
+                Watch::Persistent => {
+                    notifier.persistent_watch(true);
+                    notifier.watch_path("tpl", true);
+                }
+            }
             if cfg.variant == Variant::RequestFromCreator && calls == 1 {
                 // a request that arrives while the rebuild is in progress
                 rc2.fetch_add(1, Ordering::SeqCst);
@@ -103,6 +144,20 @@ fn c20_body(cfg: Cfg, stats: StdArc<StdMutex<Stats>>) -> impl Fn() + Send + Sync
                 let k = version.fetch_add(1, Ordering::SeqCst) + 1;
                 notifier.request_reload();
                 returned.fetch_max(k, Ordering::SeqCst);
+            }));
+        }
+        for _ in 0..cfg.fs_events {
+            let (version, returned, events_delivered) = (version.clone(), returned.clone(), events_delivered.clone());
+            handles.push(shuttle::thread::spawn(move || {
+                // the file changes (its content is now version k) ...
+                let k = version.fetch_add(1, Ordering::SeqCst) + 1;
+                // ... and notify's event loop reports it to the handler of every live watcher of the path.
+                // Only a notification that was delivered and has returned counts as a request.
+                let n = autoreload::notify::deliver_change(std::path::Path::new("tpl"), EVENT_KINDS[cfg.kind].1);
+                if n > 0 {
+                    events_delivered.fetch_add(1, Ordering::SeqCst);
+                    returned.fetch_max(k, Ordering::SeqCst);
+                }
             }));
         }
         let observations: StdArc<StdMutex<Vec<(usize, usize)>>> = Default::default();
@@ -143,7 +198,7 @@ fn c20_body(cfg: Cfg, stats: StdArc<StdMutex<Stats>>) -> impl Fn() + Send + Sync
             assert!(s >= r, "LOST RELOAD at quiescence: last returned request #{} but final environment is from version {}", r, s);
         }
         let calls = creator_calls.load(Ordering::SeqCst);
-        let allowed = 1 + cfg.requesters + usize::from(cfg.prewarm && cfg.variant == Variant::RequestFromCreator) + requests_from_creator.load(Ordering::SeqCst) + callback_trues.load(Ordering::SeqCst);
+        let allowed = 1 + cfg.requesters + events_delivered.load(Ordering::SeqCst) + usize::from(cfg.prewarm && cfg.variant == Variant::RequestFromCreator) + requests_from_creator.load(Ordering::SeqCst) + callback_trues.load(Ordering::SeqCst);
         assert!(calls <= allowed, "creator called {} times for {} requests (+{} from the creator, +{} freshness callbacks)", calls, cfg.requesters, requests_from_creator.load(Ordering::SeqCst), callback_trues.load(Ordering::SeqCst));
         if cfg.fast {
             assert!(calls == 1, "with fast reload the creator runs once, not {} times", calls);
@@ -152,7 +207,11 @@ fn c20_body(cfg: Cfg, stats: StdArc<StdMutex<Stats>>) -> impl Fn() + Send + Sync
         obs.sort();
         let mut st = stats.lock().unwrap();
         st.executions += 1;
-        st.outcomes.insert(format!("calls={} obs={:?}", calls, obs));
+        if cfg.watch == Watch::Off {
+            st.outcomes.insert(format!("calls={} obs={:?}", calls, obs));
+        } else {
+            st.outcomes.insert(format!("calls={} obs={:?} delivered={} watchers={}", calls, obs, events_delivered.load(Ordering::SeqCst), autoreload::notify::watchers_created()));
+        }
     }
 }
 
@@ -170,21 +229,46 @@ fn configs(tier: &str) -> Vec<(Cfg, usize)> {
             for (r, a) in [(1, 1), (1, 2), (2, 1), (2, 2)] {
                 // quick: 3 preemptions for two threads, 2 for three, 1 for four
                 let bound = if tier == "thorough" { 3 } else { 5 - (r + a).max(2) };
-                v.push((Cfg { requesters: r, acquirers: a, fast, variant, acquires_each: 1, prewarm }, bound));
+                v.push((Cfg { requesters: r, acquirers: a, fast, variant, acquires_each: 1, prewarm, fs_events: 0, watch: Watch::Off, kind: 0 }, bound));
             }
             // one acquirer acquiring twice: request between two acquires of the same thread
-            v.push((Cfg { requesters: 1, acquirers: 1, fast, variant, acquires_each: 2, prewarm }, if tier == "thorough" { 4 } else { 3 }));
+            v.push((Cfg { requesters: 1, acquirers: 1, fast, variant, acquires_each: 2, prewarm, fs_events: 0, watch: Watch::Off, kind: 0 }, if tier == "thorough" { 4 } else { 3 }));
             if tier == "thorough" {
                 // three requests / three acquires (the quantifier's upper end): all five thread mixes for
                 // the plain protocol, the 3+3 mix for the variants
                 for (r, a) in [(3, 1), (1, 3), (3, 2), (2, 3), (3, 3)] {
                     if (variant == Variant::Plain && !prewarm) || (r, a) == (3, 3) || (prewarm && variant == Variant::Plain && (r, a) == (1, 3)) {
-                        v.push((Cfg { requesters: r, acquirers: a, fast, variant, acquires_each: 1, prewarm }, 2));
+                        v.push((Cfg { requesters: r, acquirers: a, fast, variant, acquires_each: 1, prewarm, fs_events: 0, watch: Watch::Off, kind: 0 }, 2));
                     }
                 }
             }
         }
     }
+    }
+    // file-change notifications: threads playing notify's event loop deliver events to the handler
+    // closure the real source registers; a watcher only exists once an environment was created, so
+    // the interesting start state is the prewarmed one (cold starts are included: events before the
+    // first creation reach nobody and are not requests)
+    for prewarm in [true, false] {
+        for (fast, watch) in [(false, Watch::Transient), (false, Watch::Persistent), (true, Watch::Transient)] {
+            for (w, r, a, each) in [(1, 0, 1, 1), (1, 0, 2, 1), (2, 0, 1, 1), (1, 1, 1, 1), (1, 0, 1, 2), (2, 0, 2, 1), (1, 1, 2, 1)] {
+                let threads = w + r + a;
+                let bound = if tier == "thorough" { if threads >= 4 { 2 } else { 3 } } else { 5 - threads.max(2) };
+                if !prewarm && threads > 3 && tier != "thorough" {
+                    continue;
+                }
+                v.push((Cfg { requesters: r, acquirers: a, fast, variant: Variant::Plain, acquires_each: each, prewarm, fs_events: w, watch, kind: 0 }, bound));
+            }
+            if prewarm {
+                // every event kind the handler reacts to, and the freshness / creator-request variants
+                for kind in 1..EVENT_KINDS.len() {
+                    v.push((Cfg { requesters: 0, acquirers: 1, fast, variant: Variant::Plain, acquires_each: 1, prewarm, fs_events: 1, watch, kind }, if tier == "thorough" { 3 } else { 2 }));
+                }
+                for variant in [Variant::RequestFromCreator, Variant::FreshnessCallback] {
+                    v.push((Cfg { requesters: 0, acquirers: 2, fast, variant, acquires_each: 1, prewarm, fs_events: 1, watch, kind: 0 }, 2));
+                }
+            }
+        }
     }
     v
 }
@@ -365,7 +449,7 @@ fn c20(tier: &str, seed: u64, replay_file: Option<String>) -> i32 {
         coverage,
         vec![
             "shuttle models every atomic as sequentially consistent and runs tasks one at a time; Arc/Weak reference counts are not scheduling points",
-            "the file-system watcher thread (notify) is not driven; its callback shares the flag protocol with request_reload",
+            "the notify crate is replaced by a stub whose event delivery is a harness thread: the handler closure is the real source's, the inotify machinery is not; an event is delivered to watchers alive when the delivery starts",
             "a failing creator is outside the property's quantifier and is not driven",
         ],
         start.elapsed().as_secs_f64(),
